@@ -3,4 +3,5 @@ EXES = [
     {"name": "litmus", "sources": ["harness/litmus.cpp"]},
     {"name": "stop", "sources": ["harness/stop.cpp"]},
     {"name": "cancel", "sources": ["harness/cancel.cpp"]},
+    {"name": "mutexh", "sources": ["harness/mutexh.cpp"]},
 ]
